@@ -10,5 +10,6 @@ CONSTANTS
   PPInterval = 2
   TestMode = TRUE
   FaultKinds = {"none", "req", "param", "store", "rcstore", "die", "cancel"}
+  MaxTimed = 100
   MaxEternal = 100000
 CHECK_DEADLOCK FALSE
